@@ -912,6 +912,89 @@ async fn limited_flood_family(cli: &Cli, report: &mut Report, late: &LateLog) {
     }
 }
 
+/// Clients that ask for the status and then stop *reading* (tiny receive window): when the server's
+/// deadline ends such a connection, unsent data is still queued in the kernel. Whatever the server
+/// does to get rid of these connections, it must not cost anyone else time. Probes run before,
+/// across and after the instant the server gives the non-readers up.
+async fn non_reading_family(cli: &Cli, report: &mut Report, late: &LateLog) {
+    use passage_adapters::{ServerStatus, ServerVersion};
+    use tokio::io::AsyncWriteExt;
+    let rounds = cli.scaled(if cli.tier == Tier::Thorough { 3 } else { 1 });
+    for round in 0..rounds {
+        let server_timeout = Duration::from_secs(2);
+        let mut adapters = default_adapters(&DirectSpec::default());
+        adapters.status = vp_sim::recadapters::Outcome::Ok(Some(ServerStatus {
+            version: ServerVersion { name: "Passage".into(), protocol: 770 },
+            players: None,
+            description: None,
+            // within the protocol's string limit, far beyond the receive window the clients advertise
+            favicon: Some(format!("data:image/png;base64,{}", "A".repeat(30_000))),
+            enforces_secure_chat: None,
+        }));
+        let direct = {
+            let _g = START.lock().await;
+            start_direct(DirectSpec { timeout: server_timeout, adapters: Some(adapters), ..Default::default() }).await
+        };
+        let addr = direct.addr;
+        let control = probe("control", addr, false, 7_000 + round, BOUND).await;
+        if !control.served_within_bound() {
+            report.inconclusive("non-reading clients: the control probe was not served");
+            direct.stop.cancel();
+            continue;
+        }
+        // more non-readers than the listener's runtime has worker threads
+        let n = if cli.tier == Tier::Thorough { 48 } else { 16 };
+        let mut held = vec![];
+        let request = {
+            let mut b = vp_sim::scripts::handshake(1, "big.example.org", addr.port(), 770).frame();
+            b.extend_from_slice(&Pkt::StatusRequest.frame());
+            b
+        };
+        for _ in 0..n {
+            let Ok(sock) = tokio::net::TcpSocket::new_v4() else { continue };
+            let _ = sock.set_recv_buffer_size(2048);
+            if let Ok(Ok(mut stream)) = tokio::time::timeout(Duration::from_secs(3), sock.connect(addr)).await {
+                if stream.write_all(&request).await.is_ok() {
+                    held.push(stream);
+                }
+            }
+        }
+        let placed = Instant::now();
+        let mut probes = vec![];
+        // a probe every 300 ms until well after the server's deadline has ended the non-readers
+        while placed.elapsed() < server_timeout + Duration::from_secs(4) {
+            let t_a = Instant::now();
+            let k = probes.len() as u64;
+            let p = probe("beside-non-readers", addr, false, 7_100 + round * 100 + k, BOUND + Duration::from_secs(12)).await;
+            probes.push((p, late.worst_between(t_a, Instant::now())));
+            tokio::time::sleep(Duration::from_millis(300)).await;
+        }
+        let non_readers = held.len();
+        drop(held);
+        direct.stop.cancel();
+        report.eval(Some(&format!("non-reading-clients/{round}")));
+        report.count("non-reading clients: connections that requested a 30 KB status with a 2 KiB receive window and never read", non_readers as u64);
+        let lat: Vec<Option<f64>> = probes.iter().map(|(p, _)| p.latency().map(|d| (d.as_secs_f64() * 1000.0).round())).collect();
+        let detail = json!({"round": round, "non_readers": non_readers, "server_timeout_s": server_timeout.as_secs(), "probe_latency_ms": lat});
+        report.sample(json!({"case": "clients that request a large status and never read it, ended by the server's deadline", "observed": detail}));
+        if non_readers < n / 2 {
+            report.inconclusive("non-reading clients: fewer than half of the non-readers could be placed");
+            continue;
+        }
+        for (p, worst) in &probes {
+            report.count("probes measured", 1);
+            if !p.served_within_bound() {
+                if *worst > BOUND / 2 {
+                    report.inconclusive(&format!("non-reading clients: harness lateness {worst:?} during a probe, verdict void"));
+                } else {
+                    report.violation("probe-delayed/proxy-off/non-reading-clients", &format!("a well-behaved client was not served within {BOUND:?} while the server was getting rid of {non_readers} clients that never read their status response"), detail.clone());
+                    break;
+                }
+            }
+        }
+    }
+}
+
 /// Thousands of different client addresses were seen recently (a scan, a bot net, or simply a busy
 /// evening behind PROXY protocol): a newcomer with an address of its own must still be served.
 async fn many_sources_family(cli: &Cli, report: &mut Report) {
@@ -975,6 +1058,7 @@ pub async fn run_prop(cli: &Cli) -> i32 {
     if cli.replay.is_none() {
         let late = LateLog::start(Duration::from_millis(20));
         limited_flood_family(cli, &mut report, &late).await;
+        non_reading_family(cli, &mut report, &late).await;
         many_sources_family(cli, &mut report).await;
     }
     report.finish()
